@@ -64,6 +64,11 @@ PatchSet(n) ==
       [] n = "X3"  -> { <<3, i, j>> : i, j \in (-2)..2 }                      \* spacing 18 deg
       [] n = "X6"  -> { <<6, i, j>> : i, j \in (-2)..2 }                      \* spacing 9.5 deg
       [] n = "X12" -> { <<12, i, j>> : i, j \in (-2)..2 }                     \* spacing 4.8 deg
+      \* offset patches: the axis point <<N, 0, 0>> is not the centre of the patch, so it is a corner of lattice
+      \* octagons (a lattice octagon surrounds the centre of a centred 5 x 5 patch and never has it as a corner);
+      \* the 24 rotations carry that corner onto the poles and onto the antimeridian point
+      [] n = "X6o"  -> { <<6, i, j>> : i \in 0..4, j \in (-3)..1 }
+      [] n = "X12o" -> { <<12, i, j>> : i \in 0..4, j \in (-3)..1 }
       [] n = "D12" -> Directions(Box(10, 12))                                 \* 25 directions within 10 deg of (1,1,1)
       [] n = "D9"  -> Directions(Box(7, 9))                                   \* 25 directions within 14 deg of (1,1,1)
 Pts == SetToSortSeq(PatchSet(PatchName), Lex3)
@@ -213,6 +218,37 @@ OrbEmit == f > 0 => PrintT(<<"O", Sel[f].id,
                 rots   |-> [ r \in 1..Len(RotSeq) |-> RotFace(RotSeq[r], OrbFace) ],
                 subs   |-> { [ kind |-> s.kind, a |-> s.a, b |-> s.b, pieces |-> s.pieces,
                                ex |-> [ k \in 1..Len(s.pieces) |-> ExcessDescr(s.pieces[k]) ] ] : s \in OrbSubs } ]>>)
+
+
+(* ---- Tiny: the exact shrink map and a cancellation-free descriptor ------------------------ *)
+\* v -> (M - 1)(v.c) c + (c.c) v keeps the component of v across c and multiplies the component along c
+\* by M: the angle between v and c shrinks by about 1/M, exactly, on the integer lattice.  With c the
+\* x axis it is v -> <<M x, y, z>>.  The harness applies it with M up to 10^5 in unbounded integers
+\* (TLC's integers are 32 bit); TLC proves here, for small M, what the harness relies on: the map is
+\* the stated one, convexity / orientation / side bound survive it, and the harness's integer
+\* evaluation of the descriptor below is the specification's (the emitted values are compared).
+Scale3(k, v) == << k * v[1], k * v[2], k * v[3] >>
+Shrink(M, c, v) == Add3(Scale3((M - 1) * Dot(v, c), c), Scale3(N2(c), v))
+ShrinkX(M, v) == << M * v[1], v[2], v[3] >>
+ShrinkFace(M, F) == [ k \in 1..Len(F) |-> ShrinkX(M, F[k]) ]
+\* excess of the triangle a, b, c (Van Oosterom - Strackee): tan(E/2) = det / (|a||b||c| + (a.b)|c| + (a.c)|b| + (b.c)|a|);
+\* no cancellation for small triangles.  A convex face is the fan of triangles from its first corner.
+TriDescr(a, b, c) == << Det(a, b, c), N2(a), N2(b), N2(c), Dot(a, b), Dot(a, c), Dot(b, c) >>
+FanDescr(F) == [ k \in 1..(Len(F) - 2) |-> TriDescr(F[1], F[k + 1], F[k + 2]) ]
+TinyMs == {1, 2, 5}
+TinyInit == OrbInit
+TinyNext == OrbNext
+TinyFace == Sel[f].dirs
+TinyPremise == f > 0 => \A M \in TinyMs :
+                   LET G == ShrinkFace(M, TinyFace) IN
+                   /\ \A k \in 1..Len(G) : G[k] = Shrink(M, <<1, 0, 0>>, TinyFace[k])
+                   /\ ConvexCCW(G) /\ SidesShorterThan90(G)
+                   /\ \A k \in 1..(Len(G) - 2) : FanDescr(G)[k][1] > 0          \* every fan triangle is positively oriented
+                   /\ \A r \in Rot24 : FanDescr(RotFace(r, G)) = FanDescr(G)      \* and the descriptor is rotation invariant
+TinyEmit == f > 0 => PrintT(<<"T", Sel[f].id,
+                [ ex  |-> ExcessDescr(TinyFace),
+                  fan |-> [ M \in TinyMs |-> FanDescr(ShrinkFace(M, TinyFace)) ],
+                  rots |-> RotSeq ]>>)
 
 (* ---- renumberings of a mesh with n nodes and m faces: bijections, emitted by TLC -------- *)
 Stride(n, s, o) == [ i \in 1..n |-> ((i - 1) * s + o) % n ]        \* 0-based image of position i
